@@ -167,7 +167,9 @@ def main(ck, tier, w):
             ck.violation('; '.join(probs), {'scenario': obs, 'coin': coin, 'bit_flips': how, 'observed': r.brief(), 'tags': []})
 
     # consistent chains: every tree shape, all coins, every start
-    counts = [1, 2, 3, 4, 5, 6, 7, 8, 9, 15, 16, 17, 31, 32, 33, 100, 255, 256]
+    counts = [1, 2, 3, 4, 5, 6, 7, 8, 9, 15, 16, 17, 31, 32, 33, 100, 255, 256, 2049]
+    if not quick:
+        counts += [3072, 1023, 1025, 2047, 2048, 2050, 2052, 4097, 5000]
     jobs = []
     for ci, coin in enumerate(btc.COINS):
         for j in range(2 if quick else 6):
